@@ -14,42 +14,17 @@ from sa.ctx import Ctx, short, stmt_key
 from sa.lockset import LockSet
 from sa.report import Report
 
-TRACKED_CONTAINERS = {"_oids", "_paths", "_changeset_storage", "_dirtyset", "requestset", "excludeset"}
-# the property setter `_changeset` rebinds _changeset_storage
-TRACKED_ATTRS = TRACKED_CONTAINERS | {"_changeset"}
-MUTATORS = {"add", "discard", "remove", "pop", "clear", "update", "append", "setdefault", "popitem", "extend", "insert",
-            "difference_update", "intersection_update", "symmetric_difference_update", "__setitem__", "__delitem__"}
-
-# deliberately untracked, with the reason (DESIGN.md C15): data_id / cursor rows go through the storage interface
-# (its own mutex: C09.R6); EventManager._queue is private to the event manager and not covered by the state lock.
-
-
-def _has_inst(t, qnames):
-    return any(term[0] == "inst" and term[1] in qnames for term in t)
+from sa.statemodel import StateModel, TRACKED_CONTAINERS, TRACKED_ATTRS, MUTATORS, _has_inst
 
 
 class C15:
     def __init__(self, ctx: Ctx, rep: Report):
         self.ctx, self.rep = ctx, rep
-        p = ctx.prog
-        self.state_cls = p.cls("SyncState")
-        self.state_q = {self.state_cls.qname} | {c.qname for c in self.state_cls.all_subclasses()}
-        self.entry_q = {p.cls("SyncEntry").qname, p.cls("SideState").qname}
-        self.entry_inits = {p.func("SyncEntry.__init__").qname, p.func("SideState.__init__").qname}
-        # anchors: the tracked containers must exist as attributes assigned in the constructors
-        init_attrs = set()
-        for c in [self.state_cls] + self.state_cls.all_subclasses():
-            init = c.methods.get("__init__")
-            if init:
-                for n in ctx.own_nodes(init):
-                    if isinstance(n, ast.Attribute) and isinstance(n.ctx, ast.Store) and isinstance(n.value, ast.Name) and n.value.id == init.self_name:
-                        init_attrs.add(n.attr)
-        missing = TRACKED_CONTAINERS - init_attrs
-        if missing:
-            raise AnalysisError("tracked state attribute(s) %s no longer assigned in SyncState/SmartSyncState.__init__" % sorted(missing))
-        if "lock" not in init_attrs:
-            raise AnalysisError("SyncState.lock is not assigned in SyncState.__init__")
-        self.ls = LockSet(ctx, self.is_lock_item, self.mutation_sites, over=True, skip=self.skip)
+        self.sm = StateModel(ctx)
+        self.state_cls = self.sm.state_cls
+        self.state_q = self.sm.state_q
+        self.entry_q = self.sm.entry_q
+        self.ls = LockSet(ctx, self.is_lock_item, self.sm.mutation_sites, over=True, skip=self.skip)
 
     # ---------------------------------------------------------------- lock regions
     def is_lock_item(self, f: FuncInfo, it: ast.withitem) -> bool:
@@ -60,72 +35,7 @@ class C15:
 
     def skip(self, f: FuncInfo) -> bool:
         # objects under construction are not shared yet
-        return f.qname == self.state_cls.methods["__init__"].qname or \
-            any(f.qname == c.methods["__init__"].qname for c in self.state_cls.all_subclasses() if "__init__" in c.methods)
-
-    # ---------------------------------------------------------------- mutation sites
-    def _rooted_in_tracked(self, f, e, aliases) -> bool:
-        """Is expression `e` an access path into a tracked container of a SyncState?"""
-        while True:
-            if isinstance(e, ast.Subscript):
-                e = e.value
-            elif isinstance(e, ast.Call) and isinstance(e.func, ast.Attribute) and e.func.attr in ("get", "setdefault", "values", "items", "keys"):
-                e = e.func.value
-            elif isinstance(e, ast.Attribute):
-                if e.attr in TRACKED_ATTRS and _has_inst(self.ctx.res.type_of(f, e.value), self.state_q):
-                    return True
-                return False
-            elif isinstance(e, ast.Name):
-                return e.id in aliases
-            else:
-                return False
-
-    def mutation_sites(self, f: FuncInfo):
-        ctx, res = self.ctx, self.ctx.res
-        out = []
-        nodes = ctx.own_nodes(f)
-        # local aliases of tracked containers
-        aliases = set()
-        for _ in range(2):
-            for n in nodes:
-                if isinstance(n, ast.Assign) and len(n.targets) == 1 and isinstance(n.targets[0], ast.Name):
-                    if self._rooted_in_tracked(f, n.value, aliases) and not isinstance(n.value, ast.Name):
-                        # element reads such as `ent = self._oids[side][oid]` yield entries, not containers:
-                        # only keep aliases whose type is a container
-                        t = res.type_of(f, n.value)
-                        if not _has_inst(t, self.entry_q):
-                            aliases.add(n.targets[0].id)
-                elif isinstance(n, (ast.For, ast.comprehension)) and self._rooted_in_tracked(f, n.iter, aliases):
-                    for x in ast.walk(n.target):
-                        if isinstance(x, ast.Name):
-                            t = res.type_of(f, x)
-                            if any(term[0] in ("dict", "seq") for term in t) or not t:
-                                if not _has_inst(t, self.entry_q):
-                                    aliases.add(x.id)
-        in_entry_init = f.qname in self.entry_inits
-        for n in nodes:
-            if isinstance(n, ast.Attribute) and isinstance(n.ctx, (ast.Store, ast.Del)):
-                rt = res.type_of(f, n.value)
-                if _has_inst(rt, self.entry_q):
-                    if in_entry_init and isinstance(n.value, ast.Name) and n.value.id == f.self_name:
-                        continue
-                    out.append((n, "store to entry field `%s`" % ast.unparse(n)))
-                elif n.attr in TRACKED_ATTRS and _has_inst(rt, self.state_q):
-                    out.append((n, "rebinding of tracked container `%s`" % ast.unparse(n)))
-            elif isinstance(n, ast.Subscript) and isinstance(n.ctx, (ast.Store, ast.Del)):
-                if self._rooted_in_tracked(f, n.value, aliases):
-                    out.append((n, "item store/delete in tracked container `%s`" % ast.unparse(n)))
-                elif _has_inst(res.type_of(f, n.value), self.entry_q):
-                    out.append((n, "side-state replacement `%s`" % ast.unparse(n)))
-            elif isinstance(n, ast.Call) and isinstance(n.func, ast.Attribute):
-                if n.func.attr in MUTATORS and self._rooted_in_tracked(f, n.func.value, aliases):
-                    out.append((n, "mutating call on tracked container `%s`" % ast.unparse(n)[:80]))
-                elif n.func.attr == "__setattr__" and isinstance(n.func.value, ast.Name) and n.func.value.id == "object" and n.args:
-                    if _has_inst(res.type_of(f, n.args[0]), self.entry_q):
-                        if in_entry_init:
-                            continue
-                        out.append((n, "raw field store `%s`" % ast.unparse(n)))
-        return out
+        return f.qname in self.sm.state_inits
 
     # ---------------------------------------------------------------- roots
     def thread_roots(self):
